@@ -27,7 +27,8 @@ ASSUMPTIONS = [
     'the leak clause recognises owner-bound watchers structurally (functools.partial with a function= keyword bound to the '
     'owner); unrecognisable callbacks are counted, not judged',
 ]
-REQUIRED = {'ops_judged': 3000, 'replacements': 1000, 'leaf_sets': 1000, 'detached_leaf_sets': 200, 'leak_checks': 2000, 'slot_sets': 300, 'falsy_object_cases': 100, 'on_init_builders': 60}
+REQUIRED = {'ops_judged': 3000, 'replacements': 1000, 'leaf_sets': 1000, 'detached_leaf_sets': 200, 'leak_checks': 2000, 'slot_sets': 300, 'falsy_object_cases': 100, 'on_init_builders': 60,
+            'equal_comparing_object_cases': 50, 'batched_subobject_updates': 300}
 
 _st = {}
 _n = [0]
@@ -55,6 +56,23 @@ def setup(P):
         def __bool__(self):
             return False
 
+    class EqNode(Node):
+        """value-style comparison: all such objects compare equal and hash alike; they are still distinct objects"""
+        def __eq__(self, other):
+            return isinstance(other, param.Parameterized)
+
+        def __hash__(self):
+            return 1
+
+    class EqLeaf(Leaf):
+        def __eq__(self, other):
+            return isinstance(other, param.Parameterized)
+
+        def __hash__(self):
+            return 1
+
+    _st['EqNode'] = EqNode
+    _st['EqLeaf'] = EqLeaf
     _st['Node'] = Node
     _st['Leaf'] = Leaf
     _st['EmptyNode'] = EmptyNode
@@ -78,6 +96,9 @@ def run_case(idx, rng, P, rep):
         # objects that evaluate to False are still objects: every sub-object (and the owner) is falsy in these cases
         Node, Leaf = _st['EmptyNode'], _st['FalseLeaf']
         rep.count('falsy_object_cases')
+    elif rng.random() < 0.2:
+        Node, Leaf = _st['EqNode'], _st['EqLeaf']
+        rep.count('equal_comparing_object_cases')
     nmeth = rng.randint(1, 2)
     mspecs = []
     for mi in range(nmeth):
@@ -296,6 +317,43 @@ def run_case(idx, rng, P, rep):
             trace.append((kind, type(o).__name__, nb))
             o.param[pn].bounds = nb
             rep.count('slot_sets')
+        elif c < 0.58:
+            # several parameters of one attached object assigned together (one batch): leaves with new or unchanged values,
+            # possibly together with the object it holds (replaced by one with equal or different leaves)
+            cands = [o for o in reachable()]
+            if not cands:
+                continue
+            o = rng.choice(cands)
+            kw = {}
+            for pn in ('x', 'y'):
+                if rng.random() < 0.7:
+                    kw[pn] = val() if rng.random() < 0.6 else getattr(o, pn)
+            kind = 'leaf:batch'
+            if isinstance(o, Node) and rng.random() < 0.6:
+                oldb = o.b
+                if isinstance(oldb, Node) and rng.random() < 0.7:
+                    d_old = 1 + (isinstance(oldb.b, Node))
+                    kw['b'] = new_node(d_old, oldb, rng.choice([(), (), ('x',), ('y',)]))
+                else:
+                    kw['b'] = new_node(1)
+                if rng.random() < 0.5:
+                    kw = dict(reversed(list(kw.items())))
+                kind = 'replace:batch'
+                if oldb is not None:
+                    pref = next((pf for pf in ('a.b', 'a.b.b') if holder_and_attr(pf)[0] is o), None)
+                    if pref:
+                        detached_pool.append((pref, oldb))
+                stats['repl'] += 1
+            if not kw:
+                continue
+            trace.append((kind, type(o).__name__, sorted(kw)))
+            if rng.random() < 0.5:
+                o.param.update(**kw)
+            else:
+                with param.parameterized.batch_call_watchers(o):
+                    for k, v in kw.items():
+                        setattr(o, k, v)
+            rep.count('batched_subobject_updates')
         elif c < 0.8:
             # leaf assignment on an attached object
             cands = [o for o in reachable()]
